@@ -7,6 +7,7 @@ ENGINES = {
     "H1": {"name": "pipe-sim", "pkg": "./bfe_util/pipe", "desc": "real bfe_util/pipe (mutex+cond) with writer/reader/closer/breaker tasks under the lock/cond-granular scheduler; porcupine linearizability against a bounded-FIFO model"},
     "H2": {"name": "prison-sim", "pkg": "./bfe_modules/mod_prison", "desc": "real mod_prison handler, rule table, rule-file loader and LRU dictionaries driven by timed request histories on the simulated clock"},
     "B": {"name": "health-sim", "pkg": "./bfe_balance/backend", "desc": "real BfeBackend + UpdateStatus + check() goroutine (a scheduler task via the go-statement rewrite) probing through simnet with seeded verdicts on the fake clock"},
+    "C": {"name": "node-sim", "pkg": "./bfe_server", "desc": "whole BfeServer (NewBfeServer/InitHttp/InitDataLoad/modules) built from generated config files, real conn.serve/ReverseProxy/bfe_http.Transport, scripted clients and backends on simnet"},
     "A": {"name": "balancer-sim", "pkg": "./bfe_balance", "desc": "real bal_table/bal_gslb/bal_slb/backend under the lock-granular scheduler, fake clock, configs through the real file loaders"},
 }
 
@@ -64,6 +65,18 @@ PROPS["C06"] = dict(expect_probes=["up_transition_checked", "checker_ran"], engi
     level_text="Seeded search over interleavings of 1-3 reporter tasks (OnFail/OnSuccess scripts with simulated gaps), the real check() goroutine, a scripted probe listener on the simulated network whose verdict per probe (accept / refuse / time out / slow accept) comes from the tape, and an optional Release, on the fake clock (intervals 10 ms-10 s). Oracles over the seq-stamped history: down exactly at FailNum consecutive failures (exact for one reporter with an ambiguity range around recoveries, interval-based for several), at most one live checker task at every scheduler step, every recovery preceded by SuccNum consecutive successful probes, at most one probe after Release and checker exit within bounded simulated time; -race variant.",
     level_note="Trusted: simrt/simnet, the task registry (a checker is a task whose entry function is backend.check with this backend as first argument), in-package read of the avail field at quiescence. TCP check mode only (HTTP mode goes through net/http, not simulated).",
     technique="deterministic simulation: seeded schedules + seeded probe verdicts on a simulated network/clock; history oracles for thresholds, single-checker invariant at every step, bounded-time release")
+
+PROPS["SMOKE"] = dict(gomaxprocs=1, selftest_gomaxprocs=("1", "1", "1"), engine="C", runs=(4, 4), modes=[("nofault", 1.0)], race=False, level="exploration", design="", level_text="", level_note="", technique="")
+
+PROPS["C07"] = dict(expect_probes=["forward_filter_finish"], gomaxprocs=1, selftest_gomaxprocs=("1", "1", "1"), engine="C", runs=(1500, 60000), modes=[("nofault", 0.3), ("swarm", 0.7)], race=False, level="exploration", design="§6 Engine C / C07", level_text="Whole-node simulation: 1-3 client connections (each with its own cluster of 1-4 backends) send 1-5 requests through the real conn.serve / ReverseProxy / bfe_http.Transport while the scripted backends follow a per-attempt fault plan (connect refused / timed out, reset on accept, reset or close after the request, no response until the header timeout, reset mid-header / mid-body, slow bodies) and a generated HandleForward filter finishes some requests. Invariant at every scheduler step: no backend's active-connection count is negative; at node quiescence every count is zero.", level_note='Trusted: simrt/simnet, a harness accessor that reads connNum without the lock at quiescence. WebSocket/stream tunnels are not part of this check.', technique="deterministic simulation: whole-node run with scripted clients/backends on a simulated network, seeded faults and schedules, wire-level reference-parser oracles")
+
+PROPS["C08"] = dict(expect_probes=["c08_retry_checked"], gomaxprocs=1, selftest_gomaxprocs=("1", "1", "1"), engine="C", runs=(1500, 60000), modes=[("nofault", 0.3), ("swarm", 0.7)], race=False, level="exploration", design="§6 Engine C / C08", level_text='Same node simulation with one client connection: the sequence of attempts the scripted backends (and the dial policy) observe for each request is checked: a further attempt only after a connect-phase failure or for a body-less GET when RetryLevel allows it, never after body bytes reached a backend, at most 1+RetryMax+CrossRetry attempts, attempts beyond RetryMax leave the designated sub-cluster.', level_note='Trusted: simrt/simnet, attribution of attempts to requests (one request in flight per cluster; request id in the target). Error classes are produced by real wire events, not by a stub RoundTripper.', technique="deterministic simulation: whole-node run with scripted clients/backends on a simulated network, seeded faults and schedules, wire-level reference-parser oracles")
+
+PROPS["C26"] = dict(expect_probes=["c26_connection_listed_checked"], gomaxprocs=1, selftest_gomaxprocs=("1", "1", "1"), engine="C", runs=(1500, 60000), modes=[("nofault", 0.3), ("swarm", 0.7)], race=False, level="exploration", design="§6 Engine C / C26", level_text="Same node simulation; client requests are biased toward hop-by-hop material (Keep-Alive, Proxy-*, TE, Trailer, Upgrade, chunked bodies, fields named by Connection). Every request recorded by the scripted backends is parsed by the reference parser and must not carry a hop-by-hop field or a field listed in the client's Connection header. Input-driven; observed on the simulated backend wire under segmentation/faults.", level_note='Trusted: simrt/simnet, href reference request parser.', technique="deterministic simulation: whole-node run with scripted clients/backends on a simulated network, seeded faults and schedules, wire-level reference-parser oracles")
+
+PROPS["C27"] = dict(expect_probes=["c27_full_response_checked", "c27_truncation_checked"], gomaxprocs=1, selftest_gomaxprocs=("1", "1", "1"), engine="C", runs=(1500, 60000), modes=[("nofault", 0.3), ("swarm", 0.7)], race=False, level="exploration", design="§6 Engine C / C27", level_text='Same node simulation; backend responses vary status (200/201/204/304/404/500/503/301), header sets (duplicates, Content-Type present/absent), framing (Content-Length, chunked with trailers, close-delimited), interim 100, slow bodies, and mid-response failures; clients vary method (GET/HEAD/POST/PUT), HTTP/1.0/1.1, keep-alive/close. The client-side byte stream is parsed by the reference response parser: one final response per request, backend status, end-to-end headers preserved per name in order, equal body (empty for HEAD/204/304), undelimited responses only on a closing connection, and a backend failure mid-body never delivered as a complete shorter body on a connection that stays open.', level_note="Trusted: simrt/simnet, href reference response parser. Reading of 'same headers': preserved, BFE may add Date / sniffed Content-Type / Connection / its own framing; Content-Type dropped from a 304 is not flagged (RFC 7232 4.1).", technique="deterministic simulation: whole-node run with scripted clients/backends on a simulated network, seeded faults and schedules, wire-level reference-parser oracles")
+
+PROPS["C28"] = dict(expect_probes=["c28_all_answered"], gomaxprocs=1, selftest_gomaxprocs=("1", "1", "1"), engine="C", runs=(1500, 60000), modes=[("nofault", 0.3), ("swarm", 0.7)], race=False, level="exploration", design="§6 Engine C / C28", level_text='Same node simulation with sequential and pipelined (2-4) request bursts per connection, bodies with Content-Length and chunked framing, HEAD, HTTP/1.0, arbitrary segmentation of the client byte stream: responses arrive in request order with at most one final response each, every request a backend receives was sent by a client (a body re-read as a request shows up as an unknown id or an unparseable request), and a connection with unanswered requests is closed.', level_note='Trusted: simrt/simnet, href parsers, request ids embedded in targets and backend ids in responses.', technique="deterministic simulation: whole-node run with scripted clients/backends on a simulated network, seeded faults and schedules, wire-level reference-parser oracles")
 
 NOT_APPLICABLE = {
     "C10": "pure function of (host table, VIP table, Host header): no goroutine, clock, stream, file or peer takes part; the only thing to vary is input, which is generation, not simulation (DESIGN §7)",
